@@ -719,7 +719,7 @@ class Gen(object):
                     args.append({"form": form, "c": self.no_single_group(c) if form == "raw" else c,
                                  "sp": False})
                 else:
-                    args.append(self.undelimited_arg(ctx, lvl))
+                    args.append(self.undelimited_arg(ctx, lvl, last=(i == sig["n"] - 1)))
             return args
         for i, p in enumerate(sig["params"]):
             lvl = sig["clean"][i]
@@ -751,7 +751,8 @@ class Gen(object):
                 args.append({"form": form, "sp": False,
                              "c": self.no_single_group(c) if form == "raw" else c})
             else:
-                args.append(self.undelimited_arg(ctx, lvl))
+                args.append(self.undelimited_arg(ctx, lvl, last=(i == len(sig["params"]) - 1 and
+                                                                  not sig["hashbrace"])))
         return args
 
     def no_single_group(self, content):
@@ -765,13 +766,17 @@ class Gen(object):
             self.features.add("arg-single-group-delimited")
         return content
 
-    def undelimited_arg(self, ctx, lvl):
+    def undelimited_arg(self, ctx, lvl, last=False):
         r = self.i(0, 9)
         sp = self.p(2)
         if r <= 2:
             return {"form": "tok", "sp": sp, "c": [{"k": "t", "s": self.pick(SINGLE)}]}
-        if r == 3:
-            # bare #k as an undelimited argument: only plain-text parameters
+        if r <= 4 and last:
+            # bare #k as an undelimited argument: only plain-text parameters, and only as
+            # the last argument of the call -- the callee takes the first token of the
+            # actual argument, the rest stays behind as text; in any other position the
+            # following arguments would shift (a braced argument could end up inside a
+            # delimited one, with that parameter's delimiter hidden in its braces)
             pars = self.par_choices(ctx, need=2)
             if pars:
                 lv, k = self.pick(pars)
